@@ -77,7 +77,10 @@ def checkSchnorrSignature (O : Oracles) (sig pubkey : Bytes) (sv : SigVersion) (
     let script := sv == .tapscript
     let sh ← Res.ask (.sigT ed.annexHash ed.tapleafHash ed.codesepPos hashtype script)
                 (O.sigHashTap ed.annexHash ed.tapleafHash ed.codesepPos hashtype script)
-    Res.ask (.schnorr pubkey sig64 sh) (O.schnorrVerify pubkey sig64 sh)
+    -- `if sh == nil { return false }`: TaprootSigHash returns nil where BIP341 defines no digest
+    -- (the oracle's answer for "nil" is the empty byte string)
+    if sh.length == 0 then pure false
+    else Res.ask (.schnorr pubkey sig64 sh) (O.schnorrVerify pubkey sig64 sh)
 
 /-- result of `evalChecksig`: the two named results and the (possibly decremented) execdata -/
 structure CsRes where
